@@ -404,20 +404,31 @@ pub fn run(args: &Args) -> i32 {
     for depth in 1..=max_depth {
         // expand every frontier history by every op
         let mut candidates: Vec<Vec<usize>> = vec![];
+        // depth 5 (thorough) extends every depth-4 state by the first 30 operations of the alphabet
+        // only (scripts and the original host calls): the full alphabet does not fit in memory there
+        let ops_here = if depth >= 5 { alpha.len().min(30) } else { alpha.len() };
         for h in &frontier {
-            for i in 0..alpha.len() {
+            for i in 0..ops_here {
                 let mut n = h.clone();
                 n.push(i);
                 candidates.push(n);
             }
         }
-        let results = par_shards_big_stack(candidates.len(), 64 << 20, |c| {
-            let hist = &candidates[c];
-            let (viol, key) = check_history(hist, &alpha);
-            (viol, key)
-        });
+        // the level is processed in chunks, and only the hash of a state key is kept (the key text
+        // of every 997th state is kept for the samples), so that memory stays bounded at depth 5
         let mut next_frontier = vec![];
-        for (hist, (viol, key)) in candidates.iter().zip(results.into_iter()) {
+        let mut results: Vec<(Vec<String>, (u64, Option<String>))> = Vec::with_capacity(candidates.len());
+        for chunk_start in (0..candidates.len()).step_by(200_000) {
+            let chunk = &candidates[chunk_start..(chunk_start + 200_000).min(candidates.len())];
+            let part = par_shards_big_stack(chunk.len(), 64 << 20, |c| {
+                let hist = &chunk[c];
+                let (viol, key) = check_history(hist, &alpha);
+                let h = hash_of(&key);
+                (viol, (h, if (chunk_start + c) % 997 == 3 { Some(key) } else { None }))
+            });
+            results.extend(part);
+        }
+        for (hist, (viol, (key_hash, key_text))) in candidates.iter().zip(results.into_iter()) {
             transitions += 1;
             validated += 1;
             let names: Vec<String> = hist.iter().map(|i| alpha[*i].name()).collect();
@@ -428,9 +439,9 @@ pub fn run(args: &Args) -> i32 {
                     format!("history: {}\n{}\n", names.join(" ; "), v),
                 );
             }
-            if seen.insert(hash_of(&key)) {
+            if seen.insert(key_hash) {
                 states += 1;
-                if samples.len() < 5 && states % 37 == 3 {
+                if let (true, Some(key)) = (samples.len() < 5, key_text) {
                     samples.push(format!("{} => {}", names.join(" ; "), key));
                 }
                 next_frontier.push(hist.clone());
@@ -461,7 +472,7 @@ pub fn run(args: &Args) -> i32 {
     if capped {
         report.cov("cap_hit", format!("wall cap {wall_cap} s reached after depth {depth_completed}"));
     }
-    report.cov("rule", format!("BFS over all histories of length <= {max_depth} over a {}-operation alphabet on one real runtime instance (states rebuilt by replay); a history is expanded only if its canonical key (H1 snapshot, rendering of the exports map) is new; invariants I1 (no leftover execution state) and I2 (probe battery equals a fresh instance that executed only the completed effects) are evaluated after every transition", alpha.len()));
+    report.cov("rule", format!("BFS over all histories of length <= {max_depth} over a {}-operation alphabet (the fifth operation of a history, thorough tier only, ranges over the first 30 operations) on one real runtime instance (states rebuilt by replay); a history is expanded only if its canonical key (H1 snapshot, rendering of the exports map) is new; invariants I1 (no leftover execution state) and I2 (probe battery equals a fresh instance that executed only the completed effects) are evaluated after every transition", alpha.len()));
     if samples.is_empty() {
         samples.push("run:export-value".into());
     }
